@@ -167,6 +167,8 @@ int vorbis_synthesis_halfrate(vorbis_info *vi,int flag){
   /* set / clear half-sample-rate mode */
   codec_setup_info     *ci=vi->codec_setup;
 
+  if(!ci)return -1; /* cleared or never initialised info */
+
   /* right now, our MDCT can't handle < 64 sample windows. */
   if(ci->blocksizes[0]<=64 && flag)return -1;
   ci->halfrate_flag=(flag?1:0);
@@ -175,5 +177,6 @@ int vorbis_synthesis_halfrate(vorbis_info *vi,int flag){
 
 int vorbis_synthesis_halfrate_p(vorbis_info *vi){
   codec_setup_info     *ci=vi->codec_setup;
+  if(!ci)return 0;
   return ci->halfrate_flag;
 }
